@@ -1,7 +1,7 @@
 (* C02 - Index-ordered select visits exactly the indexed rows in index order.
    Property theorems only; proofs are in Proofs/. *)
-From SQ Require Import Model.Base Model.Record Model.Btree Model.Low
-     Spec.Flat Spec.Deliver Proofs.BtreeP Proofs.LowP Proofs.ScanP.
+From SQ Require Import Model.Base Model.Record Model.Btree Model.Low Model.High
+     Spec.Flat Spec.Deliver Proofs.BtreeP Proofs.LowP Proofs.ScanP Proofs.HighP.
 
 (* the index traversal, generic in the tree, including entries stored in
    interior pages (emitted between their left child and the next child) *)
@@ -20,3 +20,15 @@ Theorem C02_scan_all : forall pg op npages root l,
   index_scan pg op npages _ root (stop_after None) [] = (Continue, rev l).
 Proof. exact index_scan_all. Qed.
 Print Assumptions C02_scan_all.
+
+(* the high level IndexedSelect on a rowid table (indexed_select.go: Model/High.v): per index
+   entry, in index order, each once, the row mapping of the table row the entry's rowid names -
+   a failing lookup or a missing row ends the select with that error *)
+Theorem C02_indexed_select : forall pg op npages S cb sc ms table columns, master pg op npages = (Continue, ms) ->
+  forall iname ind ci troot iroot s, s_worowid sc = false ->
+  find_index sc iname = Some ind -> to_ci_rowid sc columns = Ok ci ->
+  find_root ms name_table table = Ok troot -> find_root ms name_index (si_name ind) = Ok iroot ->
+  h_indexed_select pg op npages S cb sc table iname columns s
+  = run_flat (via_rowid pg op npages S cb ci troot) (index_rows pg op npages iroot) s.
+Proof. exact indexed_select_rowid_table. Qed.
+Print Assumptions C02_indexed_select.
